@@ -1,3 +1,214 @@
 package sym
 
-func (ex *Exec) initIOStubs() {}
+import (
+	"fmt"
+	gtoken "go/token"
+	"go/types"
+	"strings"
+	"unicode/utf8"
+
+	"golang.org/x/tools/go/ssa"
+
+	"verif/engine/smt"
+)
+
+// ReaderV is the content of a reader object: remaining text as rope pieces
+// (a single alternative), or a tape of symbolic runes.
+type ReaderV struct {
+	Pieces []Piece
+	Tape   []*smt.Term
+	IsTape bool
+	AtEOF  bool
+}
+
+var readerType = types.NewNamed(types.NewTypeName(0, nil, "modelReader", nil), types.NewStruct(nil, nil), nil)
+var evalValueType = types.NewNamed(types.NewTypeName(0, nil, "modelConstantValue", nil), types.NewStruct(nil, nil), nil)
+var eofErr = &OpaqueErr{Msg: concStr("EOF")}
+
+func (ex *Exec) eofIface() Value { return &IfaceV{Typ: opaqueErrType, Val: eofErr} }
+
+func (ex *Exec) initIOStubs() {
+	t := ex.StubTable
+	t["strings.NewReader"] = func(ex *Exec, st *State, fr *Frame, args []Value, in ssa.Instruction) (Value, *forkReq) {
+		s := args[0].(*StrV)
+		if len(s.Alts) > 1 {
+			call := in.(ssa.CallInstruction).Common()
+			return nil, ex.splitStr(st, fr, call.Args[0], s)
+		}
+		obj := ex.newObj(st, &ReaderV{Pieces: s.Alts[0].P})
+		return &Ptr{Obj: obj}, nil
+	}
+	t["bufio.NewReader"] = func(ex *Exec, st *State, fr *Frame, args []Value, in ssa.Instruction) (Value, *forkReq) {
+		r := args[0].(*IfaceV)
+		p, ok := r.Val.(*Ptr)
+		if !ok {
+			panic(unsupported("bufio.NewReader on unmodelled reader"))
+		}
+		if _, ok := st.Heap[p.Obj].(*ReaderV); !ok {
+			panic(unsupported("bufio.NewReader on unmodelled reader"))
+		}
+		return p, nil
+	}
+	t["(*bufio.Reader).ReadRune"] = stubReadRune
+	t["(*bufio.Reader).ReadString"] = stubReadString
+	t["go/token.NewFileSet"] = func(ex *Exec, st *State, fr *Frame, args []Value, in ssa.Instruction) (Value, *forkReq) {
+		return &Ptr{}, nil
+	}
+	t["go/types.Eval"] = stubEval
+}
+
+// vRuneReader(name, n): a reader over n symbolic runes (ASCII or U+FFFD).
+func init() {
+	intrinsics["vRuneReader"] = func(ex *Exec, st *State, fr *Frame, args []Value, in ssa.Instruction) (Value, *forkReq) {
+		name := mustStr(args[0], "vRuneReader")
+		n, ok := ex.constInt(args[1])
+		if !ok {
+			panic(unsupported("vRuneReader: constant length expected"))
+		}
+		rv := &ReaderV{IsTape: true}
+		for i := 0; i < n; i++ {
+			full, k := ex.freshName(st, name)
+			t := ex.st.Var(full, 32)
+			st.Inputs = append(st.Inputs, Input{Name: name, Idx: k, Term: t})
+			st.addPC(ex.st.Or(ex.st.ULt(t, ex.st.BV(0x80, 32)), ex.st.Eq(t, ex.st.BV(0xFFFD, 32))))
+			rv.Tape = append(rv.Tape, t)
+		}
+		obj := ex.newObj(st, rv)
+		return &IfaceV{Typ: readerType, Val: &Ptr{Obj: obj}}, nil
+	}
+	intrinsics["vTextReader"] = func(ex *Exec, st *State, fr *Frame, args []Value, in ssa.Instruction) (Value, *forkReq) {
+		s := args[0].(*StrV)
+		if len(s.Alts) > 1 {
+			call := in.(ssa.CallInstruction).Common()
+			return nil, ex.splitStr(st, fr, call.Args[0], s)
+		}
+		obj := ex.newObj(st, &ReaderV{Pieces: s.Alts[0].P})
+		return &IfaceV{Typ: readerType, Val: &Ptr{Obj: obj}}, nil
+	}
+}
+
+func stubReadRune(ex *Exec, st *State, fr *Frame, args []Value, in ssa.Instruction) (Value, *forkReq) {
+	p := args[0].(*Ptr)
+	rv := st.Heap[p.Obj].(*ReaderV)
+	s := ex.st
+	if rv.IsTape {
+		if len(rv.Tape) == 0 {
+			return &TupleV{[]Value{s.BV(0, 32), s.BV(0, 64), ex.eofIface()}}, nil
+		}
+		r := rv.Tape[0]
+		st.Heap[p.Obj] = &ReaderV{IsTape: true, Tape: rv.Tape[1:]}
+		size := s.Ite(s.ULt(r, s.BV(0x80, 32)), s.BV(1, 64), s.BV(1, 64)) // invalid byte: size 1
+		return &TupleV{[]Value{r, size, &IfaceV{}}}, nil
+	}
+	ps := normPieces(rv.Pieces)
+	if len(ps) == 0 {
+		return &TupleV{[]Value{s.BV(0, 32), s.BV(0, 64), ex.eofIface()}}, nil
+	}
+	if !ps[0].isLit() {
+		panic(unsupported("ReadRune inside a symbolic numeral"))
+	}
+	r, size := utf8.DecodeRuneInString(ps[0].Lit)
+	rest := append([]Piece{{Lit: ps[0].Lit[size:]}}, ps[1:]...)
+	st.Heap[p.Obj] = &ReaderV{Pieces: rest}
+	return &TupleV{[]Value{s.BV(uint64(uint32(r)), 32), s.BV(uint64(size), 64), &IfaceV{}}}, nil
+}
+
+func stubReadString(ex *Exec, st *State, fr *Frame, args []Value, in ssa.Instruction) (Value, *forkReq) {
+	p := args[0].(*Ptr)
+	rv := st.Heap[p.Obj].(*ReaderV)
+	d := args[1].(*smt.Term)
+	if !d.IsConst() || rv.IsTape {
+		panic(unsupported("ReadString: delimiter/tape"))
+	}
+	delim := string(rune(d.Val))
+	ps := normPieces(rv.Pieces)
+	var line []Piece
+	for i, pc := range ps {
+		if !pc.isLit() {
+			line = append(line, pc)
+			continue
+		}
+		if k := strings.Index(pc.Lit, delim); k >= 0 {
+			line = append(line, Piece{Lit: pc.Lit[:k+1]})
+			rest := append([]Piece{{Lit: pc.Lit[k+1:]}}, ps[i+1:]...)
+			st.Heap[p.Obj] = &ReaderV{Pieces: rest}
+			return &TupleV{[]Value{ex.normStr([]StrAlt{{P: line}}), &IfaceV{}}}, nil
+		}
+		line = append(line, pc)
+	}
+	// no delimiter: the remaining text together with io.EOF
+	st.Heap[p.Obj] = &ReaderV{}
+	return &TupleV{[]Value{ex.normStr([]StrAlt{{P: line}}), ex.eofIface()}}, nil
+}
+
+// stubEval models go/types.Eval on constant expressions: concrete text is
+// evaluated by the real go/types; a rope made of sign literals and one
+// numeral is evaluated symbolically.
+func stubEval(ex *Exec, st *State, fr *Frame, args []Value, in ssa.Instruction) (Value, *forkReq) {
+	expr := args[3].(*StrV)
+	if len(expr.Alts) > 1 {
+		call := in.(ssa.CallInstruction).Common()
+		return nil, ex.splitStr(st, fr, call.Args[3], expr)
+	}
+	call := in.(ssa.CallInstruction).Common()
+	tvType := call.Signature().Results().At(0).Type()
+	mk := func(val *StrV) Value {
+		tv := ex.zero(tvType).(*StructV)
+		nf := append([]Value(nil), tv.Fields...)
+		nf[2] = &IfaceV{Typ: evalValueType, Val: val}
+		return &StructV{nf}
+	}
+	a := expr.Alts[0]
+	if l, ok := a.lit(); ok {
+		fs := gtoken.NewFileSet()
+		tv, err := types.Eval(fs, nil, gtoken.NoPos, l)
+		if err != nil {
+			return &TupleV{[]Value{ex.zero(tvType), ex.newErr(concStr("<eval error>"))}}, nil
+		}
+		if tv.Value == nil {
+			// gmars would dereference a nil constant value
+			return &TupleV{[]Value{ex.zero(tvType), &IfaceV{}}}, nil
+		}
+		return &TupleV{[]Value{mk(concStr(tv.Value.String())), &IfaceV{}}}, nil
+	}
+	// rope: (sign literal)* numeral  — Go's lexer reads "--" / "++" as one
+	// token (syntax error), so adjacency matters
+	ps := a.P
+	if len(ps) >= 1 && ps[len(ps)-1].Dec != nil {
+		num := ps[len(ps)-1]
+		signs := ""
+		okShape := true
+		for _, q := range ps[:len(ps)-1] {
+			if !q.isLit() {
+				okShape = false
+			}
+			signs += q.Lit
+		}
+		for _, c := range signs {
+			if c != '+' && c != '-' {
+				okShape = false
+			}
+		}
+		if okShape {
+			if strings.Contains(signs, "--") || strings.Contains(signs, "++") {
+				return &TupleV{[]Value{ex.zero(tvType), ex.newErr(concStr("<eval error>"))}}, nil
+			}
+			val := num.Dec
+			// the numeral itself may be negative when signed: "-" + "-5" = "--5"
+			if num.Signed {
+				neg := ex.st.SLt(val, ex.st.BV(0, 64))
+				if strings.HasSuffix(signs, "-") && ex.feasible(st, neg) {
+					panic(unsupported("Eval: sign followed by a possibly negative numeral"))
+				}
+			}
+			negs := strings.Count(signs, "-")
+			if negs%2 == 1 {
+				val = ex.st.Neg(val)
+			}
+			return &TupleV{[]Value{mk(ex.normStr([]StrAlt{{P: []Piece{{Dec: val, Signed: true}}}})), &IfaceV{}}}, nil
+		}
+	}
+	panic(unsupported("types.Eval on rope " + piecesString(ps)))
+}
+
+var _ = fmt.Sprintf
